@@ -191,7 +191,12 @@ type Sim struct {
 
 	forcePick int // single-preemption sweep
 	jumps     int
+	jumped    time.Duration
 }
+
+// Jumped returns how much simulated time the scheduler let pass at scheduling points at which tasks were
+// runnable (clock jumps). Oracles about elapsed time subtract it: it models slow execution, not waiting.
+func (s *Sim) Jumped() time.Duration { return s.jumped }
 
 var active atomic.Pointer[Sim]
 
@@ -645,6 +650,7 @@ func (s *Sim) RunUntil(stop func() bool) (quiescent bool) {
 			}
 			if d > 0 {
 				s.jumps++
+				s.jumped += d
 				s.Faults["clock-jump"]++
 				s.Event("clock-jump")
 				// the candidates found above stay parked; whatever the timers wake joins them
